@@ -532,6 +532,23 @@ pub fn run(args: &Args) -> i32 {
             }
         }
     }
+    // very long lines (beyond 4 KiB, windows beyond 16 KiB): the snippet that is stored with the error is cropped already at
+    // storage time, differently for the error line and for its context lines
+    for hi in 0..(if n > 1000 { 24 } else { 6 }) {
+        let k = 1500 + rng.below(3000);
+        let items = "1, ".repeat(k);
+        let word = "w".repeat(5000 + rng.below(4000));
+        let (text, target) = match hi % 6 {
+            0 => (format!("a: 1\nb: [{items}}}\nc: 3\n"), Target::Map),
+            1 => (format!("a: [{items}1]\nb: 2\nc: 3\n"), Target::Map),
+            2 => (format!("a: 1\nb: x\nc: [{items}1]\n"), Target::Map),
+            3 => (format!("# {word}\n# {word}\nb: x\n# {word}\n"), Target::Map),
+            4 => (format!("a: 1\n{word}: [{items}1, x, {items}]\n"), Target::Strict),
+            _ => (format!("k: \"{word}\nb: 1\n"), Target::Map),
+        };
+        let doc = Doc { text, target, family: "huge" };
+        render_all(&doc, &format!("h{hi}"), &[5, 64], &mut rng, &mut w, &mut stats, true);
+    }
     for i in 0..n {
         let doc = gen_doc(&mut rng, i);
         if stats.samples.len() < 4 && doc.text.len() < 200 {
